@@ -13,13 +13,13 @@ AXIOMS = {
 }
 # theorem names that must be present in Props/Cxx.v
 PINNED = {
-    "C01": ["c01_myers_valid", "c01_myers_no_panic", "c01_snake_spec", "c01_lcs_valid", "c01_lcs_no_panic", "c01_patience_valid", "c01_patience_no_panic", "c01_strong_implies_spec", "c01_raw_replay", "c01_checker_reflects"],
+    "C01": ["c01_myers_valid", "c01_myers_no_panic", "c01_snake_spec", "c01_lcs_valid", "c01_lcs_no_panic", "c01_patience_valid", "c01_patience_no_panic", "c01_strong_implies_spec", "c01_raw_replay", "c01_checker_reflects", "c01_raw_shift", "c01_raw_shift_slices", "c01_capture_shift"],
     "C02": ["c02_capture_valid", "c02_capture_no_panic", "c02_capture_apply", "c02_identical_only_equal", "c02_ratio", "c02_checker_reflects", "c02_identical_only_equal_all", "c02_patience_identical_items", "c02_capture_dbg_independent_all", "c02_capture_valid_all", "c02_capture_no_panic_all", "c02_capture_apply_all", "c02_ratio_patience"],
     "C03": ["c03_myers_minimal", "c03_lcs_minimal", "c03_cost_lower_bound", "c03_lcs_len_correct"],
     "C04": ["c04_text_reconstruct", "c04_change_index_shape", "c04_items_reconstruct", "c04_textdiff_reconstruct_partition", "c04_textdiff_reconstruct", "c04_capture_valid_patience", "c04_capture_valid_all", "c04_capture_exact_repaired_patience", "c04_capture_no_panic_patience", "c04_capture_diff_eq_patience", "c04_patience_raw"],
     "C05": ["c05_bytes_eqb_iff", "c05_udiff_render_eq_print_gen", "c05_udiff_render_eq_print", "c05_udiff_applies", "c05_udiff_applies_strict", "c05_udiff_render_applies", "c05_udiff_empty_iff_no_change", "c05_udiff_empty_equal", "c05_udiff_empty_iff_equal", "c05_udiff_header_once", "c05_marker_exactly", "c05_marker_exactly_body", "c05_ends_with_newline_spec", "c05_writer_bytes", "c05_lossy_app_sep", "c05_lossy_ascii", "c05_display_eq_lossy_writer", "c05_parse_sound", "c05_parse_check_meaning", "c05_parse_print", "c05_parse_print_nohint", "c05_text_render_parse_applies", "c05_render_parse_applies_nohint"],
     "C06": ["c06_Chars_unfold", "c06_decode_partition", "c06_decode_valid_len", "c06_decode_newline_char", "c06_decode_newline_byte", "c06_tok_bytes_ok", "c06_tok_str_ok", "c06_tok_str_bytes_agree", "c06_tokenize_lines_str_bytes", "c06_check_partition_lossless", "c06_tokenize_bytes_lossless", "c06_tokenize_str_lossless", "c06_line_shape_sound", "c06_check_chars_shape_iff"],
-    "C07": ["c07_myers_valid_any_clock", "c07_myers_completes_any_clock", "c07_lcs_valid_any_clock", "c07_lcs_completes_any_clock", "c07_snake_none_only_by_deadline", "c07_alg_parametric", "c07_never_expire_raw", "c07_never_expire_capture", "c07_never_expire_textdiff", "c07_never_expire_ctr", "c07_none_no_probe"],
+    "C07": ["c07_myers_valid_any_clock", "c07_myers_completes_any_clock", "c07_lcs_valid_any_clock", "c07_lcs_completes_any_clock", "c07_snake_none_only_by_deadline", "c07_alg_parametric", "c07_never_expire_raw", "c07_never_expire_capture", "c07_never_expire_textdiff", "c07_never_expire_ctr", "c07_none_no_probe", "c07_post_expiry_bound", "c07_post_bound_values", "c07_post_expiry_bound_any_alg", "c07_clock_at_mono"],
     "C08": ["c08_myers_finish_last", "c08_lcs_finish_last", "c08_replace_acts_by_emitting", "c08_replace_inner_failure", "c08_compact_hook", "c08_no_finish_forwards", "c08_no_finish_body", "c08_default_replace", "c08_default_replace_trace"],
     "C09": ["c09_capture_alternating", "c09_replace_alternates", "c09_checker_reflects", "c09_capture_normal_form", "c09_capture_insert_latest", "c09_compact_replace_normal_form", "c09_needs_nonempty"],
     "C10": ["c10_compact_preserves", "c10_compact_terminates", "c10_compact_total", "c10_compact_hook", "c10_delete_never_slides_up", "c10_replace_exact", "c10_compact_exact_repaired"],
@@ -113,7 +113,7 @@ def run_C01(ctx):
 SPECS["C01"] = dict(
     level="proof",
     manifest=dict(
-        text="Machine-checked theorems (Props/C01.v, all closed under the global context, no size bound): for every comparison oracle, every in-bounds pair of ranges and EVERY deadline clock, the calls Myers and LCS deliver to a recording hook form a strong raw walk (positive lengths, contiguous cursors, element-wise equal Equal segments, exact Delete index, Insert index within its run), which implies the property's run-relative reading (c01_strong_implies_spec) and finish-last; neither algorithm panics or runs out of fuel (c01_myers_no_panic rests on the full proof of the bidirectional middle-snake search: c01_snake_spec); replaying the callbacks reproduces the new range. Patience validity is proved in the same style when Proofs/Patience.v is present (see evidence theorem list); the sub-range = shifted-slices clause is covered by the correspondence over all sub-ranges and offset lookups rather than by a theorem. The extracted check_raw (reflection proved) is run on every call log of the real crate.",
+        text="Machine-checked theorems (Props/C01.v, all closed under the global context, no size bound): for every comparison oracle, every in-bounds pair of ranges and EVERY deadline clock, the calls Myers and LCS deliver to a recording hook form a strong raw walk (positive lengths, contiguous cursors, element-wise equal Equal segments, exact Delete index, Insert index within its run), which implies the property's run-relative reading (c01_strong_implies_spec) and finish-last; neither algorithm panics or runs out of fuel (c01_myers_no_panic rests on the full proof of the bidirectional middle-snake search: c01_snake_spec); replaying the callbacks reproduces the new range. Patience validity is proved in the same style (c01_patience_valid, c01_patience_no_panic). The sub-range clause is a theorem too: diffing ranges (os..oe, ns..ne) equals diffing the sequences cut at os / ns on (0..oe-os, 0..ne-ns) with os / ns added to every reported index, for all three algorithms, every clock, raw and through the capture pipeline, with equal panics and counters (c01_raw_shift, c01_raw_shift_slices, c01_capture_shift); the correspondence additionally runs all sub-ranges and offset lookups on the real crate. The extracted check_raw (reflection proved) is run on every call log of the real crate.",
         note='Trusted: Coq 8.16.1 kernel; extraction with ExtrOcamlBasic only; OCaml driver and Rust harness glue; the tie of the hand-written model to /repo is the correspondence check (differential testing on the generated inputs, rebuilt from the working tree every run), not a proof about the Rust source. usize wrap-around is not modelled.',
         technique='Coq proof (Myers middle-snake theory, conquer invariants, LCS) + model/implementation correspondence + verified checker on implementation output',
     ),
@@ -340,7 +340,7 @@ def relevant_C07(comp, kv):
 SPECS["C07"] = dict(
     level="proof",
     manifest=dict(
-        text="Machine-checked theorems (Props/C07.v, closed under the global context): the validity and completion theorems of C01 hold for EVERY clock, i.e. whichever probe the deadline expires at (Myers: the snake answers None only after a probe answered true and conquer then emits one delete and one insert; LCS: the table is abandoned and the tail emits the remaining delete/insert), with finish exactly once and last. A deadline that never expires gives exactly the result of no deadline: proved for raw traces, capture_diff and text diffs of all three algorithms with no premise at all (c07_never_expire_*, from a generic parametricity theorem c07_alg_parametric: two hook/clock worlds that answer alike make every algorithm run alike, including equal panics). Checked on the real code (see evidence for theorems added later): the post-expiry comparison bound (counted by the harness through the cfg(similar_verif) clock, bound 8(N+M)+8) and the plumbing: probe counts compared with the model, and the deadline VALUE that reaches deadline_exceeded (hook) must be the configured instant, or diff start + timeout, through nine entry points.",
+        text="Machine-checked theorems (Props/C07.v, closed under the global context): the validity and completion theorems of C01 hold for EVERY clock, i.e. whichever probe the deadline expires at (Myers: the snake answers None only after a probe answered true and conquer then emits one delete and one insert; LCS: the table is abandoned and the tail emits the remaining delete/insert), with finish exactly once and last. A deadline that never expires gives exactly the result of no deadline: proved for raw traces, capture_diff and text diffs of all three algorithms with no premise at all (c07_never_expire_*, from a generic parametricity theorem c07_alg_parametric: two hook/clock worlds that answer alike make every algorithm run alike, including equal panics). After expiry at most N+M (Myers), 0 (LCS), 2(N+M)+1 (Patience) further comparisons are made, for every monotone clock (c07_post_expiry_bound; the harness clock is monotone: c07_clock_at_mono); the harness counts them on the real crate through the cfg(similar_verif) clock, compares the count with the model and checks the proved bounds. By nature checked on the real code only: the plumbing: probe counts compared with the model, and the deadline VALUE that reaches deadline_exceeded (hook) must be the configured instant, or diff start + timeout, through nine entry points.",
         note='Trusted: Coq 8.16.1 kernel; extraction with ExtrOcamlBasic only; OCaml driver and Rust harness glue; the tie of the hand-written model to /repo is the correspondence check (differential testing on the generated inputs, rebuilt from the working tree every run), not a proof about the Rust source. usize wrap-around is not modelled.',
         technique='Coq proof over all clocks + fault enumeration of every expiry point k on the real code via the virtual-clock hook + verified checker',
     ),
@@ -452,6 +452,14 @@ def run_C09(ctx):
         pairs.append((a, b, None, "S"))
     C.evaluate(ctx, "capture-deadline-every-k", capture_with_deadlines(ctx, pairs), rel)
     C.evaluate(ctx, "adapter-scripts", adapter_world(ctx, ["compact_replace"]), rel, dbg=False)
+    # TextDiff::ops, both branches of the 100-token switch
+    cases = []
+    for o, n in text_pairs(ctx, tiered(ctx, 150, 1500), invalid=False):
+        for alg in ALGS:
+            cases.append((ctx.rng.choice(TOKS_DIFF), alg, ctx.rng.choice(["str", "bytes"]), None, "-", o, n))
+            ctx.count("textdiff:small")
+    cases.extend(threshold_text_cases(ctx))
+    C.evaluate(ctx, "textdiff-ops", textdiff_lines(ctx, cases), rel, nontrivial=nontrivial_text, cap=60)
 
 
 SPECS["C09"] = dict(
@@ -463,8 +471,9 @@ SPECS["C09"] = dict(
     ),
     relevant=lambda comp, kv: {"no_panic", "normal"} if kv.get("stack", "compact_replace") == "compact_replace" else {"no_panic"},
     run=run_C09,
-    generators="capture component as in C02 (small worlds, random, every deadline expiry point) and every valid script "
-               "of the C10 adapter world pushed through Compact+Replace",
+    generators="capture component as in C02 (small worlds, random, every deadline expiry point), every valid script "
+               "of the C10 adapter world pushed through Compact+Replace, and TextDiff::ops on small texts and on both "
+               "sides of the 100-token switch (incl. insertions in front of a common tail that starts like them)",
 )
 
 
@@ -527,6 +536,16 @@ def run_C11(ctx):
                          lambda a, b, r, idx: [gen.capture_line(alg, a, b, r, idx=idx, repair=rp)
                                                for alg in ALGS for rp in (0, 1)])
     C.evaluate(ctx, "capture-random", lines, rel)
+    # TextDiff::ops (both branches of the 100-token switch), switch off and on
+    cases = []
+    for o, n in text_pairs(ctx, tiered(ctx, 150, 1500), invalid=False):
+        for alg in ALGS:
+            cases.append((ctx.rng.choice(TOKS_DIFF), alg, ctx.rng.choice(["str", "bytes"]), None, "-", o, n))
+            ctx.count("textdiff:small")
+    cases.extend(threshold_text_cases(ctx))
+    tl = textdiff_lines(ctx, cases)
+    tl = [l + " repair=%d" % rp for l in tl for rp in (0, 1)]
+    C.evaluate(ctx, "textdiff-ops", tl, rel, nontrivial=nontrivial_text, cap=60)
 
 
 SPECS["C11"] = dict(
@@ -539,7 +558,8 @@ SPECS["C11"] = dict(
     relevant=lambda comp, kv: {"no_panic", "ops_exact"},
     run=run_C11,
     generators="capture component, with the cfg(similar_verif) swap-repair switch off (the pinned pipeline) and on: "
-               "exhaustive small worlds with sub-ranges, structured random pairs.  Every case failing ops_exact with "
+               "exhaustive small worlds with sub-ranges, structured random pairs, and TextDiff::ops on small texts and on both "
+               "sides of the 100-token switch.  Every case failing ops_exact with "
                "the switch off is re-run with the switch on for attribution to the known finding F5",
 )
 
@@ -873,14 +893,9 @@ SPECS["C04"] = dict(
 
 
 # ------------------------------------------------------------------ C14
-def run_C14(ctx):
-    rel = SPECS["C14"]["relevant"]
+def threshold_text_cases(ctx):
+    """text-diff cases on both sides of the 100-token switch of TextDiffConfig::diff"""
     cases = []
-    for o, n in text_pairs(ctx, tiered(ctx, 200, 2000), invalid=False):
-        for tok in TOKS_DIFF:
-            for alg in ALGS:
-                cases.append((tok, alg, ctx.rng.choice(["str", "bytes"]), None, ctx.rng.choice(["-", "0", "1"]), o, n))
-                ctx.count("textdiff:small")
     # both sides of the 100-token threshold
     sizes = [(99, 99), (100, 100), (100, 101), (101, 100), (101, 3), (3, 101), (250, 240), (99, 101)]
     for so, sn in sizes:
@@ -924,6 +939,35 @@ def run_C14(ctx):
             cases_u = (("lines", alg, "str", None, "-", ot, nt),)
             cases.extend(cases_u)
             ctx.count("textdiff:mostly-unique-above-threshold")
+    # an insertion in front of a common tail that starts with the inserted block's first token (a block
+    # appended after a closing line), with an earlier change: the insertion must end up at its latest position
+    for rep in range(tiered(ctx, 30, 300)):
+        n = ctx.rng.choice([60, 101, 120, 170])
+        body_ = [b"s%d" % ctx.rng.randrange(12) for _ in range(n)]
+        k = ctx.rng.randrange(1, 4)
+        tail = [b"}"] + [b"t%d" % i for i in range(k)]
+        o = body_ + tail
+        nw = list(body_)
+        nw[ctx.rng.randrange(len(nw) // 2)] = b"changed"
+        block = [b"}"] + [b"n%d" % ctx.rng.randrange(4) for _ in range(ctx.rng.randrange(1, 4))]
+        nw = nw + (block if ctx.rng.random() < 0.5 else tail[:1] + block[1:]) + tail
+        ot = b"".join(x + b"\n" for x in o)
+        nt = b"".join(x + b"\n" for x in nw)
+        for alg in ALGS:
+            cases.append(("lines", alg, ctx.rng.choice(["str", "bytes"]), None, "-", ot, nt))
+            ctx.count("textdiff:insertion-before-matching-tail")
+    return cases
+
+
+def run_C14(ctx):
+    rel = SPECS["C14"]["relevant"]
+    cases = []
+    for o, n in text_pairs(ctx, tiered(ctx, 200, 2000), invalid=False):
+        for tok in TOKS_DIFF:
+            for alg in ALGS:
+                cases.append((tok, alg, ctx.rng.choice(["str", "bytes"]), None, ctx.rng.choice(["-", "0", "1"]), o, n))
+                ctx.count("textdiff:small")
+    cases.extend(threshold_text_cases(ctx))
     C.evaluate(ctx, "textdiff", textdiff_lines(ctx, cases), rel, nontrivial=nontrivial_text, cap=60)
     idl = []
     for a, b in gen.all_pairs(3, tiered(ctx, 3, 4)):
